@@ -113,7 +113,7 @@ TABLE.update({
        "constructor chain assigns every member, that the module maps agree "
        "with the classes, and that the generic reader and writer in "
        "SamlBase/ExtensionContainer use the same six channels. Equality of "
-       "arbitrary instance trees and byte stability are not decided. Writer: a declared attribute is written whenever the member is not None (the only value guard). The received attribute name / child element is looked up and stored unchanged (no re-binding of the key). E4: the foreign-content reader stores every child element as it is met, in a loop over the parsed element, unconditionally, and keeps attributes and text. E5: shared-state rule for the element engine. E6: the foreign-content writer assigns the element's own text, copies every attribute and appends every child (no streamed builder that turns text into a child's tail).",
+       "arbitrary instance trees and byte stability are not decided. Writer: a declared attribute is written whenever the member is not None (the only value guard). The received attribute name / child element is looked up and stored unchanged (no re-binding of the key). E4: the foreign-content reader stores every child element as it is met, in a loop over the parsed element, unconditionally, and keeps attributes and text. E5: shared-state rule for the element engine. E6: the foreign-content writer assigns the element's own text, copies every attribute and appends every child (no streamed builder that turns text into a child's tail). E7: whatever the engine keeps per class is read back through the class's own namespace, never by inheriting attribute lookup. E1/E3 membership rules are undecided (exit 2), not violated, for a reader that no longer consults c_children itself.",
   ref="Part 3 C12"),
  "C13": dict(
   tech="schema-table reflection + exhaustive type-name/cardinality rules, "
